@@ -460,7 +460,7 @@ def check_translation(pid):
         eq_src = open(os.path.join(COQ, "Gen", "BiGenEq.v")).read()
         stamp = os.path.join(d, "ok.json")
         import hashlib
-        key = hashlib.sha256((new + "\0" + eq_src).encode()).hexdigest()
+        key = hashlib.sha256((new + "\0" + eq_src + "\0" + open(os.path.join(COQ, "Gen", "BiGenSem.v")).read()).encode()).hexdigest()
         cached = None
         if os.path.exists(stamp):
             try:
@@ -515,11 +515,53 @@ def check_translation(pid):
                         break
                     failed[bad] = m.group(2).strip()[:500]
                     alive = [i for i in alive if names[i] != bad]
-            cached = {"key": key, "proved": proved, "failed": failed}
+            # fallback for operators whose generated definition is no longer syntactically the model's: equality
+            # on the real instance for all finite operands (coq/Gen/BiGenSem.v), theorem by theorem
+            sem = {}
+            cand = [t for t in failed if t != "*" and ("sem_" + t[4:]) in open(os.path.join(COQ, "Gen", "BiGenSem.v")).read()]
+            if cand and "*" not in failed and all(b in proved for b in GEN_BASE):
+                sem_src = open(os.path.join(COQ, "Gen", "BiGenSem.v")).read()
+                sblocks = re.split(r"(?=^Theorem )", sem_src, flags=re.M)
+                shead, sthms = sblocks[0], sblocks[1:]
+                ti = sthms[-1].index("End Sem.")
+                sthms[-1] = sthms[-1][:ti]
+                snames = [re.match(r"Theorem (\w+)", t).group(1) for t in sthms]
+                salive = [i for i, n in enumerate(snames) if ("gen_" + n[4:]) in cand]
+                for _ in range(len(sthms) + 1):
+                    keep = [snames[i] for i in salive]
+                    if not keep:
+                        break
+                    tl = "End Sem.\n" + "\n".join("Print Assumptions %s." % n for n in keep) + "\n"
+                    open(os.path.join(d, "BiGenSem.v"), "w").write(shead + "".join(sthms[i] for i in salive) + tl)
+                    rc, out = sh(["timeout", "600", "coqc", "-Q", COQ, "SL", "-Q", d, "SLGen", os.path.join(d, "BiGenSem.v")], cwd=d, timeout=700)
+                    if rc == 0:
+                        ax = set(re.findall(r"^([A-Za-z_][\w.']*)\s*:", out, re.M)) - {"Axioms"}
+                        if ax <= ALLOWED_AXIOMS:
+                            for n in keep:
+                                sem["gen_" + n[4:]] = n
+                        break
+                    m = re.search(r'line (\d+), characters', out)
+                    if not m:
+                        break
+                    line = int(m.group(1))
+                    txt = (shead + "".join(sthms[i] for i in salive)).splitlines()
+                    bad = None
+                    for ln in range(min(line, len(txt)) - 1, -1, -1):
+                        mm = re.match(r"Theorem (\w+)", txt[ln])
+                        if mm:
+                            bad = mm.group(1)
+                            break
+                    if bad is None:
+                        break
+                    salive = [i for i in salive if snames[i] != bad]
+            for t, sname in sem.items():
+                del failed[t]
+                proved.append(t)
+            cached = {"key": key, "proved": proved, "failed": failed, "semantic": sem}
             json.dump(cached, open(stamp, "w"))
     for t in want:
         if t in cached["proved"]:
-            res["theorems"].append(t)
+            res["theorems"].append(cached.get("semantic", {}).get(t, t))
     if "*" in cached["failed"]:
         res["errors"].append("the model's tie to src/bi.rs is broken: " + cached["failed"]["*"])
     for t in want:
